@@ -142,6 +142,18 @@ def perm_case(draw, tier="quick"):
 
 def run_perm(case, ctx):
     xs = case["xs"]
+    # Vector.new(x, n) holds [x] * n: typed by the same rule as those values
+    for x in xs[:2]:
+        for n in (1, 3):
+            ctx.ev()
+            try:
+                v = S.Vector.new(x, n)
+            except Exception:  # noqa: BLE001
+                continue
+            if isinstance(v, S.Vector) and not isinstance(v, S.Table) and len(v) == n:
+                want = ref_dtype([x] * n)
+                if _dt(v.schema()) != want:
+                    return ctx.fail(f"vector-new/{'none' if x is None else 'value'}/got-{_name(_dt(v.schema()))}", f"Vector.new({x!r}, {n}).schema() = {v.schema()}, its values give {want}")
     ys = [xs[i] for i in case["perm"]]
     if _check_seq(xs, ctx, "random-seq"):
         return
